@@ -99,6 +99,27 @@ Proof.
 Qed.
 Print Assumptions C10_leader_round.
 
+(* Leader-assigned, the follower's side: a follower whose ping of the leader fails reconnects and, when that works,
+   registers again -- always, a connection that looks fine after the reconnect is no reason not to (the leader drops a
+   follower it cannot ping, a restarted leader knows nobody) -- and lets the leader go when either step fails. Once it
+   has registered again the next leader round numbers it like every other follower, whatever happened before. *)
+Theorem C10_follower_readmitted : forall p r g,
+  fh_round true p r g =
+    (if p then [] else if negb r then [FReconnect; FDropLeader] else if g then [FReconnect; FRegister] else [FReconnect; FRegister; FDropLeader],
+     p || (r && g)) /\
+  (p = false -> r = true -> In FRegister (fst (fh_round true p r g))) /\
+  forall ops name join fail, mem name fail = false ->
+    let s := fst (sd_run sd_init (ops ++ [SAdd name join])) in
+    exists q, pos name (sd_names s) = Some q /\
+              sd_follower (fst (sd_step s (SRound fail))) name = Some ((2 + q)%nat, S (length (sd_names s))).
+Proof.
+  intros p r g. split; [|split].
+  - destruct p, r, g; reflexivity.
+  - intros -> ->. destruct g; cbn; auto.
+  - intros ops name join fail Hf. exact (registered_is_numbered ops name join fail Hf).
+Qed.
+Print Assumptions C10_follower_readmitted.
+
 (* non-vacuity: three instances join, the second dies silently, the third's document expires; rounds in any order *)
 Example C10_example_outputs :
   snd (cb_run cb_init [Register 0 10; Register 1 20; Monitor 1 [0; 1]; Monitor 0 [0; 1]; Register 2 30; Monitor 2 [0; 1; 2];
